@@ -109,6 +109,15 @@ PROPS["C20"] = {
     "assumptions": ["AppConsistent: the compiled-in app id is the same at every initialisation of a history, and stale state.json files are earlier versions of the same file"],
 }
 
+PROPS["C12"] = {
+    "modules": ["C12"], "required_theorems": ["acts_wellFormed", "acts_sectionsAtomic", "progress", "busy_update_inert"], "monitors": ["C12"],
+    "fields": ["locks", "net", "ret"],
+    "campaign": camp([("network", 400), ("mixed", 400), ("download", 300), ("chaos", 300), ("rollback", 200)],
+                     [("network", 6000), ("mixed", 6000), ("download", 4000), ("chaos", 4000), ("rollback", 3000), ("lifecycle", 3000)]),
+    "assumptions": ["std::sync::Mutex semantics; 'promptly' (latency) is runtime: the model shows the absence of blocking dependencies",
+                    "the lock hooks log acquisitions/releases of the two global locks on the calling thread; spawned threads only perform network callbacks (counted)"],
+}
+
 # Properties whose theorems are still being written: monitors + correspondence only (not in MANIFEST).
 for _p, _mon, _camp in [
     ("C01", ["C01"], camp(LIFE_Q, LIFE_T)), ("C03", ["C03"], camp(LIFE_Q, LIFE_T)), ("C05", ["C05"], camp(LIFE_Q, LIFE_T)),
